@@ -1,5 +1,5 @@
-(* Stage B, part 2: the reference semantics Sem.run on straight-line programs over top-level variables computes
-   exactly [run_stmts]. *)
+(* Stages B-D, part 2: the reference semantics Sem.run on programs over top-level variables (conditionals and condition
+   loops nested to any depth) computes exactly [run_stmts], whenever the latter's fuel suffices. *)
 From Coq Require Import List ZArith NArith Bool Arith Lia.
 Require Import RV.model.Syntax RV.model.Sem RV.proofs.SemScalarProofs.
 Require RV.model.ScalarFrag RV.model.VarProg RV.proofs.VarProgFacts.
@@ -45,6 +45,28 @@ Lemma eval_NIf f e s c cns al : eval (S f) e s (NIf c cns (Some al)) =
   | other => other
   end.
 Proof. reflexivity. Qed.
+
+(* the condition loop of Sem.eval, as a standalone function of the evaluator one fuel level down *)
+Definition wloop (f : nat) (e : env) (c : node) (body : list node) : nat -> state -> outcome * env * state :=
+  fix lp (k : nat) (s : state) : outcome * env * state :=
+    match k with
+    | O => (OErr XFuel, e, s)
+    | S k' =>
+        match eval f ([] :: e) s c with
+        | (OVal cv, _, s1) =>
+            if truthy s1 cv then
+              match eblock f ([] :: e) s1 body with
+              | (OVal _, _, s') | (OCont, _, s') => lp k' s'
+              | (OBrk, _, s') => (OVal VNil, e, s')
+              | (o, _, s') => (o, e, s')
+              end
+            else (OVal VNil, e, s1)
+        | (o, _, s1) => (o, e, s1)
+        end
+    end.
+Lemma eval_NFor_cond names f e s c body : eval (S f) e s (NFor (Some (F.embed names c)) None None body) =
+  wloop f e (F.embed names c) body f s.
+Proof. destruct c; reflexivity. Qed.
 
 Lemma sbeq_refl (a : list N) : beq a a = true.
 Proof. unfold beq. destruct (list_eq_dec N.eq_dec a a); [reflexivity|contradiction]. Qed.
@@ -131,116 +153,182 @@ Section Names.
   Lemma sem_inv_pop rho e s : e <> [] -> sem_inv rho ([] :: e) s -> sem_inv rho e s.
   Proof. intros Hne [Hl [_ [Hst H]]]. split; [exact Hl|]. split; [exact Hne|]. split; [exact Hst|]. exact H. Qed.
 
-  (* ---------------------------------------------------------------- the statements of a branch *)
-  Lemma eval_simple rho e s m f :
-    sem_inv rho e s -> P.wf_simple (length rho) m = true -> F.height (P.simple_exp m) <= f ->
-    match P.run_simple rho m with
-    | inr x => exists s', eval (S f) e s (P.embed_simple names m) = (lift (inr x), e, s')
-    | inl (rho', v) => exists s', eval (S f) e s (P.embed_simple names m) = (OVal (inj v), e, s') /\ sem_inv rho' e s'
-    end.
+  (* the environment half of the invariant does not depend on the state, the store half not on the environment *)
+  Lemma sem_inv_swap rho e s rho' e' s' : sem_inv rho e s -> sem_inv rho' e' s' -> length rho' = length rho ->
+    sem_inv rho' e s'.
   Proof.
-    intros Hinv Hwf Hf. pose proof (sem_inv_env_ok rho e s Hinv) as Henv.
-    destruct m as [i x|x]; cbn [P.embed_simple P.wf_simple P.simple_exp P.run_simple] in *.
-    - apply andb_true_iff in Hwf. destruct Hwf as [Hi Hwf]. apply Nat.ltb_lt in Hi.
-      rewrite eval_NAssign_eq, (sem_scalar names rho x f e s Hf Hwf Henv).
-      destruct (F.sev rho x) as [v|[|]]; cbn [lift]; try (eexists; reflexivity).
-      destruct Hinv as [Hl [Hne [Hst H]]]. destruct (H i Hi) as [Hlk _]. rewrite Hlk.
-      eexists. split; [reflexivity|].
-      exact (sem_inv_set rho e s i v (conj Hl (conj Hne (conj Hst H))) Hi).
-    - rewrite (sem_scalar names rho x (S f) e s ltac:(lia) Hwf Henv).
-      destruct (F.sev rho x) as [v|[|]]; cbn [lift]; try (eexists; reflexivity).
-      exists s. split; [reflexivity|exact Hinv].
+    intros [Hl [Hne [Hst H]]] [Hl' [Hne' [Hst' H']]] Hlen.
+    split; [exact Hl'|]. split; [exact Hne|]. split; [exact Hst'|].
+    intros i Hi. split; [apply H; lia|apply H'; exact Hi].
   Qed.
 
-  Lemma simple_last m v : (if is_expression (P.embed_simple names m) then inj v else VNil) =
-                          inj (match m with P.MExpr _ => v | _ => F.VNil end).
-  Proof. destruct m; cbn [P.embed_simple]; [reflexivity|rewrite PF.embed_is_expression; reflexivity]. Qed.
-
-  Lemma run_simple_value rho m rho' v : P.run_simple rho m = inl (rho', v) ->
-    v = match m with P.MExpr _ => v | _ => F.VNil end.
-  Proof. destruct m as [i x|x]; cbn [P.run_simple]; destruct (F.sev rho x); intros H; inversion H; reflexivity. Qed.
-
-  Lemma es_simples f : forall l rho e s last,
-    sem_inv rho e s -> forallb (P.wf_simple (length rho)) l = true -> P.simples_height l <= f ->
-    match P.run_simples rho l last with
-    | inr x => exists e' s', es_loop (S f) e s (map (P.embed_simple names) l) (inj last) = (lift (inr x), e', s')
-    | inl (rho', v) => exists s', es_loop (S f) e s (map (P.embed_simple names) l) (inj last) = (OVal (inj v), e, s') /\
-                                  sem_inv rho' e s'
+  Lemma es_loop_cons f e s x r last : es_loop f e s (x :: r) last =
+    match eval f e s x with
+    | (OVal v, e', s') => es_loop f e' s' r (if is_expression x then v else VNil)
+    | other => other
     end.
+  Proof. reflexivity. Qed.
+  Lemma wloop_S f e c body k s : wloop f e c body (S k) s =
+    match eval f ([] :: e) s c with
+    | (OVal cv, _, s1) =>
+        if truthy s1 cv then
+          match eblock f ([] :: e) s1 body with
+          | (OVal _, _, s') | (OCont, _, s') => wloop f e c body k s'
+          | (OBrk, _, s') => (OVal VNil, e, s')
+          | (o, _, s') => (o, e, s')
+          end
+        else (OVal VNil, e, s1)
+    | (o, _, s1) => (o, e, s1)
+    end.
+  Proof. reflexivity. Qed.
+
+  (* ---------------------------------------------------------------- statements, lists, blocks, loops *)
+  (* what holds of one statement run with source fuel n, evaluated with fuel S f *)
+  Definition stmt_sem (n : nat) : Prop :=
+    forall st rho e s f top,
+      sem_inv rho e s -> P.wf_stmt top (length rho) st = true -> P.next_k (length rho) st <= length names ->
+      P.sheight st <= f -> n <= f ->
+      match P.run_stmt n rho st with
+      | None => True
+      | Some (inr x) => exists e' s', eval (S f) e s (P.embed_stmt names (length rho) st) = (lift (inr x), e', s')
+      | Some (inl (rho', v)) => exists e' s',
+          eval (S f) e s (P.embed_stmt names (length rho) st) = (OVal (inj v), e', s') /\ sem_inv rho' e' s'
+      end.
+
+  Lemma stmt_last n rho st rho' v : P.run_stmt n rho st = Some (inl (rho', v)) ->
+    (if is_expression (P.embed_stmt names (length rho) st) then inj v else VNil) = inj v.
   Proof.
-    induction l as [|m r IH]; intros rho e s last Hinv Hwf Hh.
-    - exists s. split; [reflexivity|exact Hinv].
-    - cbn [forallb] in Hwf. apply andb_true_iff in Hwf. destruct Hwf as [Hw0 Hwr].
-      change (P.simples_height (m :: r)) with (Nat.max (F.height (P.simple_exp m)) (P.simples_height r)) in Hh.
-      rewrite PF.run_simples_cons. cbn [map es_loop]. fold (es_loop (S f)).
-      pose proof (eval_simple rho e s m f Hinv Hw0 ltac:(lia)) as He.
-      destruct (P.run_simple rho m) as [[rho1 v1]|x] eqn:Er.
-      + destruct He as [s1 [He Hinv1]]. rewrite He, simple_last.
-        rewrite <- (run_simple_value rho m rho1 v1 Er).
-        rewrite <- (PF.run_simple_length rho m rho1 v1 Er) in Hwr.
-        exact (IH rho1 e s1 v1 Hinv1 Hwr ltac:(lia)).
-      + destruct He as [s1 He]. rewrite He. exists e, s1. destruct x; reflexivity.
+    intros Hr. rewrite PF.embed_stmt_is_expression. destruct (P.is_expr_stmt st) eqn:E; [reflexivity|].
+    rewrite (PF.run_stmt_value n rho st rho' v Hr E). reflexivity.
   Qed.
 
-  Lemma eblock_simples f l rho e s :
-    sem_inv rho e s -> forallb (P.wf_simple (length rho)) l = true -> P.simples_height l <= f ->
-    match P.run_simples rho l F.VNil with
-    | inr x => exists s', eblock (S f) e s (map (P.embed_simple names) l) = (lift (inr x), e, s')
-    | inl (rho', v) => exists s', eblock (S f) e s (map (P.embed_simple names) l) = (OVal (inj v), e, s') /\ sem_inv rho' e s'
+  Lemma es_list n f : stmt_sem n -> n <= f -> forall l rho e s last top,
+    sem_inv rho e s -> P.wf_stmts top (length rho) l = true -> length rho + P.ndecls l <= length names ->
+    P.max_height l <= f ->
+    match P.run_stmts n rho l last with
+    | None => True
+    | Some (inr x) => exists e' s', es_loop (S f) e s (P.embed_stmts names (length rho) l) (inj last) = (lift (inr x), e', s')
+    | Some (inl (rho', v)) => exists e' s',
+        es_loop (S f) e s (P.embed_stmts names (length rho) l) (inj last) = (OVal (inj v), e', s') /\ sem_inv rho' e' s'
     end.
   Proof.
-    intros Hinv Hwf Hh. unfold eblock.
-    pose proof (es_simples f l rho ([] :: e) s F.VNil (sem_inv_push rho e s Hinv) Hwf Hh) as H.
-    destruct Hinv as [Hl [Hne Hrest]].
-    destruct (P.run_simples rho l F.VNil) as [[rho' v]|x].
-    - destruct H as [s' [H Hinv']]. change (inj F.VNil) with VNil in H. rewrite H.
-      exists s'. split; [reflexivity|exact (sem_inv_pop rho' e s' Hne Hinv')].
+    intros Hst Hnf. induction l as [|st r IH]; intros rho e s last top Hinv Hwf Hn Hh.
+    - cbn. exists e, s. split; [reflexivity|exact Hinv].
+    - rewrite PF.wf_stmts_cons in Hwf. apply andb_true_iff in Hwf. destruct Hwf as [Hws Hwr].
+      rewrite PF.max_height_cons in Hh. rewrite PF.embed_stmts_cons, PF.run_stmts_cons, es_loop_cons.
+      assert (Hnk : P.next_k (length rho) st <= length names) by (rewrite <- PF.ndecls_cons in Hn; lia).
+      pose proof (Hst st rho e s f top Hinv Hws Hnk ltac:(lia) Hnf) as He.
+      destruct (P.run_stmt n rho st) as [[[rho1 v1]|x]|] eqn:Er; [| |exact Logic.I].
+      + destruct He as [e1 [s1 [He Hinv1]]]. rewrite He, (stmt_last n rho st rho1 v1 Er).
+        pose proof (PF.run_stmt_length n rho st top rho1 v1 Hws Er) as Hlen.
+        rewrite <- Hlen.
+        apply (IH rho1 e1 s1 v1 top Hinv1); [rewrite Hlen; exact Hwr|rewrite Hlen, PF.ndecls_cons; exact Hn|lia].
+      + destruct He as [e1 [s1 He]]. rewrite He. exists e1, s1. destruct x; reflexivity.
+  Qed.
+
+  Lemma eblock_list n f : stmt_sem n -> n <= f -> forall l rho e s,
+    sem_inv rho e s -> P.wf_stmts false (length rho) l = true -> P.max_height l <= f ->
+    match P.run_stmts n rho l F.VNil with
+    | None => True
+    | Some (inr x) => exists s', eblock (S f) e s (P.embed_stmts names (length rho) l) = (lift (inr x), e, s')
+    | Some (inl (rho', v)) => exists s',
+        eblock (S f) e s (P.embed_stmts names (length rho) l) = (OVal (inj v), e, s') /\ sem_inv rho' e s'
+    end.
+  Proof.
+    intros Hst Hnf l rho e s Hinv Hwf Hh. unfold eblock.
+    assert (Hn : length rho + P.ndecls l <= length names)
+      by (rewrite (PF.wf_false_ndecls _ _ Hwf); destruct Hinv as [Hl _]; lia).
+    pose proof (es_list n f Hst Hnf l rho ([] :: e) s F.VNil false (sem_inv_push rho e s Hinv) Hwf Hn Hh) as H.
+    destruct (P.run_stmts n rho l F.VNil) as [[[rho' v]|x]|] eqn:Er; [| |exact Logic.I].
+    - destruct H as [e' [s' [H Hinv']]]. change (inj F.VNil) with VNil in H. rewrite H.
+      exists s'. split; [reflexivity|].
+      exact (sem_inv_swap rho e s rho' e' s' Hinv Hinv' (PF.run_stmts_length n l rho F.VNil rho' v Hwf Er)).
     - destruct H as [e' [s' H]]. change (inj F.VNil) with VNil in H. rewrite H. exists s'. reflexivity.
   Qed.
 
-  (* ---------------------------------------------------------------- one top-level statement *)
-  Lemma eval_stmt rho e s st f :
-    sem_inv rho e s -> PF.wf_stmt (length rho) st = true -> PF.next_k (length rho) st <= length names ->
-    P.stmt_height st <= f ->
-    match P.run_stmt rho st with
-    | inr x => exists e' s', eval (S f) e s (PF.embed_stmt names (length rho) st) = (lift (inr x), e', s')
-    | inl (rho', v) => exists e' s',
-        eval (S f) e s (PF.embed_stmt names (length rho) st) = (OVal (inj v), e', s') /\ sem_inv rho' e' s'
+  (* the condition loop: source fuel m, at most k rounds, body evaluated with fuel S f *)
+  Lemma wloop_sem f c b e : forall m, (forall j, j < m -> stmt_sem j) -> m <= S f ->
+    F.height c <= S f -> P.max_height b <= f ->
+    forall k rho s, m <= k -> sem_inv rho e s -> F.wf (length rho) c = true -> P.wf_stmts false (length rho) b = true ->
+    match P.run_stmt m rho (P.SWhile c b) with
+    | None => True
+    | Some (inr x) => exists s', wloop (S f) e (F.embed names c) (P.embed_stmts names (length rho) b) k s = (lift (inr x), e, s')
+    | Some (inl (rho', v)) => exists s',
+        wloop (S f) e (F.embed names c) (P.embed_stmts names (length rho) b) k s = (OVal VNil, e, s') /\
+        sem_inv rho' e s' /\ v = F.VNil
     end.
   Proof.
-    intros Hinv Hwf Hk Hf. pose proof (sem_inv_env_ok rho e s Hinv) as Henv.
-    destruct st as [x|i x|x|c t el]; cbn [PF.embed_stmt PF.wf_stmt PF.next_k P.stmt_height P.run_stmt] in *.
+    induction m as [|m IH]; intros Hst Hmf Hhc Hhb k rho s Hk Hinv Hwc Hwb; [exact Logic.I|].
+    destruct k as [|k]; [lia|].
+    rewrite PF.run_SWhile, wloop_S.
+    pose proof (sem_inv_push rho e s Hinv) as Hinv1.
+    rewrite (sem_scalar names rho c (S f) ([] :: e) s Hhc Hwc (sem_inv_env_ok rho ([] :: e) s Hinv1)).
+    destruct (F.sev rho c) as [vc|x]; [|exists s; destruct x; reflexivity].
+    cbn [lift]. rewrite truthy_inj.
+    destruct (F.struthy vc); [|exists s; split; [reflexivity|split; [exact Hinv|reflexivity]]].
+    pose proof (eblock_list m f (Hst m ltac:(lia)) ltac:(lia) b rho ([] :: e) s Hinv1 Hwb Hhb) as Hb.
+    destruct (P.run_stmts m rho b F.VNil) as [[[rho1 v1]|x]|] eqn:Er; [| |exact Logic.I].
+    - destruct Hb as [s1 [Hb Hinv2]]. rewrite Hb.
+      pose proof (PF.run_stmts_length m b rho F.VNil rho1 v1 Hwb Er) as Hlen.
+      assert (Hinv3 : sem_inv rho1 e s1) by (destruct Hinv as [_ [Hne _]]; exact (sem_inv_pop rho1 e s1 Hne Hinv2)).
+      rewrite <- Hlen.
+      apply (IH ltac:(intros j Hj; apply Hst; lia) ltac:(lia) Hhc Hhb k rho1 s1 ltac:(lia) Hinv3);
+        rewrite Hlen; assumption.
+    - destruct Hb as [s1 Hb]. rewrite Hb. exists s1. destruct x; reflexivity.
+  Qed.
+
+  Theorem eval_stmt : forall n, stmt_sem n.
+  Proof.
+    induction n as [n IH] using lt_wf_ind.
+    destruct n as [|n]; [intros st rho e s f top _ _ _ _ _; exact Logic.I|].
+    intros st rho e s f top Hinv Hwf Hk Hf Hnf. pose proof (sem_inv_env_ok rho e s Hinv) as Henv.
+    destruct st as [x|i x|x|c t el|c b].
     - (* x := e *)
+      cbn [P.embed_stmt P.wf_stmt P.next_k P.sheight P.run_stmt] in *.
+      apply andb_true_iff in Hwf. destruct Hwf as [_ Hwf].
       rewrite eval_NVar, (sem_scalar names rho x f e s Hf Hwf Henv).
       destruct (F.sev rho x) as [v|[|]]; cbn [lift]; try (eexists; eexists; reflexivity).
       eexists. eexists. split; [reflexivity|].
       destruct Hinv as [Hl [Hne [Hst H]]].
       exact (sem_inv_decl rho e s v (conj Hl (conj Hne (conj Hst H))) ltac:(lia)).
     - (* x = e *)
-      pose proof (eval_simple rho e s (P.MSet i x) f Hinv Hwf Hf) as H. cbn [P.run_simple P.embed_simple] in H.
-      destruct (F.sev rho x) as [v|xx].
-      + destruct H as [s' [H Hinv']]. exists e, s'. split; assumption.
-      + destruct H as [s' H]. exists e, s'. exact H.
+      cbn [P.embed_stmt P.wf_stmt P.next_k P.sheight P.run_stmt] in *.
+      apply andb_true_iff in Hwf. destruct Hwf as [Hi Hwf]. apply Nat.ltb_lt in Hi.
+      rewrite eval_NAssign_eq, (sem_scalar names rho x f e s Hf Hwf Henv).
+      destruct (F.sev rho x) as [v|[|]]; cbn [lift]; try (eexists; eexists; reflexivity).
+      destruct Hinv as [Hl [Hne [Hst H]]]. destruct (H i Hi) as [Hlk _]. rewrite Hlk.
+      eexists. eexists. split; [reflexivity|].
+      exact (sem_inv_set rho e s i v (conj Hl (conj Hne (conj Hst H))) Hi).
     - (* e *)
-      pose proof (eval_simple rho e s (P.MExpr x) f Hinv Hwf Hf) as H. cbn [P.run_simple P.embed_simple] in H.
-      destruct (F.sev rho x) as [v|xx].
-      + destruct H as [s' [H Hinv']]. exists e, s'. split; assumption.
-      + destruct H as [s' H]. exists e, s'. exact H.
+      cbn [P.embed_stmt P.wf_stmt P.next_k P.sheight P.run_stmt] in *.
+      rewrite (sem_scalar names rho x (S f) e s ltac:(lia) Hwf Henv).
+      destruct (F.sev rho x) as [v|[|]]; cbn [lift]; try (eexists; eexists; reflexivity).
+      exists e, s. split; [reflexivity|exact Hinv].
     - (* if *)
-      apply andb_true_iff in Hwf. destruct Hwf as [Hwct Hwe]. apply andb_true_iff in Hwct. destruct Hwct as [Hwc Hwt].
-      destruct f as [|f]; [lia|]. destruct f as [|f]; [lia|].
-      rewrite eval_NIf, (sem_scalar names rho c (S (S f)) e s ltac:(lia) Hwc Henv).
+      rewrite PF.wf_SIf in Hwf. apply andb_true_iff in Hwf. destruct Hwf as [Hwct Hwe].
+      apply andb_true_iff in Hwct. destruct Hwct as [Hwc Hwt].
+      rewrite PF.sheight_SIf in Hf. destruct f as [|f]; [lia|].
+      rewrite PF.embed_SIf, PF.run_SIf, eval_NIf, (sem_scalar names rho c (S f) e s ltac:(lia) Hwc Henv).
       destruct (F.sev rho c) as [vc|[|]]; cbn [lift]; try (eexists; eexists; reflexivity).
       rewrite truthy_inj.
       destruct (F.struthy vc).
-      + pose proof (eblock_simples (S f) t rho e s Hinv Hwt ltac:(lia)) as H.
-        destruct (P.run_simples rho t F.VNil) as [[rho' v]|xx].
+      + pose proof (eblock_list n f (IH n ltac:(lia)) ltac:(lia) t rho e s Hinv Hwt ltac:(lia)) as H.
+        destruct (P.run_stmts n rho t F.VNil) as [[[rho' v]|xx]|]; [| |exact Logic.I].
         * destruct H as [s' [H Hinv']]. exists e, s'. split; assumption.
         * destruct H as [s' H]. exists e, s'. exact H.
-      + pose proof (eblock_simples (S f) el rho e s Hinv Hwe ltac:(lia)) as H.
-        destruct (P.run_simples rho el F.VNil) as [[rho' v]|xx].
+      + pose proof (eblock_list n f (IH n ltac:(lia)) ltac:(lia) el rho e s Hinv Hwe ltac:(lia)) as H.
+        destruct (P.run_stmts n rho el F.VNil) as [[[rho' v]|xx]|]; [| |exact Logic.I].
         * destruct H as [s' [H Hinv']]. exists e, s'. split; assumption.
         * destruct H as [s' H]. exists e, s'. exact H.
+    - (* for *)
+      rewrite PF.wf_SWhile in Hwf. apply andb_true_iff in Hwf. destruct Hwf as [Hwc Hwb].
+      rewrite PF.sheight_SWhile in Hf. destruct f as [|f]; [lia|].
+      rewrite PF.embed_SWhile, eval_NFor_cond.
+      pose proof (wloop_sem f c b e (S n) ltac:(intros j Hj; apply IH; lia) ltac:(lia) ltac:(lia) ltac:(lia)
+                    (S f) rho s ltac:(lia) Hinv Hwc Hwb) as H.
+      destruct (P.run_stmt (S n) rho (P.SWhile c b)) as [[[rho' v]|xx]|]; [| |exact Logic.I].
+      + destruct H as [s' [H [Hinv' ->]]]. exists e, s'. split; assumption.
+      + destruct H as [s' H]. exists e, s'. exact H.
   Qed.
 
   (* ---------------------------------------------------------------- the statement loop of Sem.run *)
@@ -253,33 +341,34 @@ Section Names.
                   | (o, _, s') => (o, s')
                   end
       end.
+  Lemma go_loop_cons fuel e s x r last : go_loop fuel e s (x :: r) last =
+    match eval fuel e s x with
+    | (OVal v, e', s') => go_loop fuel e' s' r (if is_expression x then v else VNil)
+    | (o, _, s') => (o, s')
+    end.
+  Proof. reflexivity. Qed.
 
-  Lemma run_stmt_value rho st rho' v : P.run_stmt rho st = inl (rho', v) ->
-    (if is_expression (PF.embed_stmt names (length rho) st) then inj v else VNil) = inj v.
-  Proof.
-    destruct st as [x|i x|x|c t el]; cbn [P.run_stmt PF.embed_stmt].
-    - destruct (F.sev rho x); intros H; inversion H; reflexivity.
-    - destruct (F.sev rho x); intros H; inversion H; reflexivity.
-    - intros _. rewrite PF.embed_is_expression. reflexivity.
-    - intros _. reflexivity.
-  Qed.
+  Definition lift_top (r : (list F.sval * F.sval) + F.serr) : outcome :=
+    match r with inl (_, v) => OVal (inj v) | inr x => lift (inr x) end.
 
-  Lemma go_program f : forall l rho e s last,
-    sem_inv rho e s -> P.wf_stmts (length rho) l = true -> length rho + P.ndecls l <= length names ->
+  Lemma go_program n f : n <= f -> forall l rho e s last,
+    sem_inv rho e s -> P.wf_stmts true (length rho) l = true -> length rho + P.ndecls l <= length names ->
     P.max_height l <= f ->
-    fst (go_loop (S f) e s (P.embed_stmts names (length rho) l) (inj last)) = lift (P.run_stmts rho l last).
+    match P.run_stmts n rho l last with
+    | None => True
+    | Some r => fst (go_loop (S f) e s (P.embed_stmts names (length rho) l) (inj last)) = lift_top r
+    end.
   Proof.
-    induction l as [|st r IH]; intros rho e s last Hinv Hwf Hn Hh; [reflexivity|].
+    intros Hnf. induction l as [|st r IH]; intros rho e s last Hinv Hwf Hn Hh; [reflexivity|].
     rewrite PF.wf_stmts_cons in Hwf. apply andb_true_iff in Hwf. destruct Hwf as [Hws Hwr].
-    rewrite PF.max_height_cons in Hh. rewrite PF.embed_stmts_cons, PF.run_stmts_cons.
-    assert (Hnk : PF.next_k (length rho) st <= length names) by (rewrite <- PF.ndecls_cons in Hn; lia).
-    pose proof (eval_stmt rho e s st f Hinv Hws Hnk ltac:(lia)) as He.
-    cbn [go_loop]. fold (go_loop (S f)).
-    destruct (P.run_stmt rho st) as [[rho' v]|x] eqn:Er.
-    - destruct He as [e' [s' [He Hinv']]]. rewrite He, (run_stmt_value rho st rho' v Er).
-      pose proof (PF.run_stmt_length rho st rho' v Er) as Hlen.
-      rewrite <- Hlen. apply IH; [exact Hinv'|rewrite Hlen; exact Hwr|rewrite Hlen, PF.ndecls_cons; exact Hn|lia].
-    - destruct He as [e' [s' He]]. rewrite He. destruct x; reflexivity.
+    rewrite PF.max_height_cons in Hh. rewrite PF.embed_stmts_cons, PF.run_stmts_cons, go_loop_cons.
+    assert (Hnk : P.next_k (length rho) st <= length names) by (rewrite <- PF.ndecls_cons in Hn; lia).
+    pose proof (eval_stmt n st rho e s f true Hinv Hws Hnk ltac:(lia) Hnf) as He.
+    destruct (P.run_stmt n rho st) as [[[rho1 v1]|x]|] eqn:Er; [| |exact Logic.I].
+    - destruct He as [e1 [s1 [He Hinv1]]]. rewrite He, (stmt_last n rho st rho1 v1 Er).
+      pose proof (PF.run_stmt_length n rho st true rho1 v1 Hws Er) as Hlen.
+      rewrite <- Hlen. apply IH; [exact Hinv1|rewrite Hlen; exact Hwr|rewrite Hlen, PF.ndecls_cons; exact Hn|lia].
+    - destruct He as [e1 [s1 He]]. rewrite He. destruct x; reflexivity.
   Qed.
 
   Lemma predeclare_none : forall l k acc,
@@ -290,15 +379,17 @@ Section Names.
   Proof.
     induction l as [|st r IH]; intros k acc; [reflexivity|].
     rewrite PF.embed_stmts_cons. cbn [fold_left].
-    destruct st as [x|i x|x|c t el]; cbn [PF.embed_stmt]; try apply IH.
+    destruct st as [x|i x|x|c t el|c b]; cbn [P.embed_stmt]; try apply IH.
     destruct x; cbn [F.embed]; apply IH.
   Qed.
 
-  Theorem sem_var_program l f :
-    P.wf_stmts 0 l = true -> P.ndecls l <= length names -> P.max_height l <= f ->
-    fst (Sem.run (S f) (P.embed_stmts names 0 l)) = lift (P.run_stmts [] l F.VNil).
+  Theorem sem_var_program l n f r :
+    P.wf_stmts true 0 l = true -> P.ndecls l <= length names -> P.max_height l <= f -> n <= f ->
+    P.run_stmts n [] l F.VNil = Some r ->
+    fst (Sem.run (S f) (P.embed_stmts names 0 l)) = lift_top r.
   Proof.
-    intros Hwf Hn Hh. unfold Sem.run. rewrite predeclare_none.
-    exact (go_program f l [] ([] :: global_env) init_state F.VNil sem_inv_init Hwf Hn Hh).
+    intros Hwf Hn Hh Hnf Hr. unfold Sem.run. rewrite predeclare_none.
+    pose proof (go_program n f Hnf l [] ([] :: global_env) init_state F.VNil sem_inv_init Hwf Hn Hh) as H.
+    rewrite Hr in H. exact H.
   Qed.
 End Names.
